@@ -488,7 +488,7 @@ def live_iterations(prog: Program, fn: FunctionInfo, effects) -> list[LiveIter]:
                 if m.name in ("__init__", "__post_init__"):
                     continue
                 d = effects.direct(m)
-                if attr in d.mutates or attr in d.writes:
+                if attr in d.mutates:  # re-binding the attribute does not disturb an iteration over the old object
                     muts.append(m.qual)
         if muts:
             out.append(LiveIter(fn, st, p, sorted(set(muts))))
